@@ -176,7 +176,7 @@ def main():
     nontriv = set()
     for c, il in zip(cases, impl):
         if mod.nontrivial(c, il):
-            nontriv.add(vlib.collapse_errors(il) + "|" + c.split(" ")[0] + str(len(c)))
+            nontriv.add(c)
     cov["evaluations"] = len(cases)
     cov["distinct_nontrivial"] = len(nontriv)
     cov["rule"] = getattr(mod, "RULE", "")
